@@ -217,7 +217,8 @@ Proof.
       * rewrite (execute_world_null _ _ _ _ _ _ _ _ _ Hn Enull). reflexivity.
       * destruct (null (td_cmd dt)); [rewrite K1; reflexivity|].
         apply (run_command_ext s dt _ _ K1). exact Hne.
-    + intro k. destruct (str_eq_dec k dkey) as [->|Hne]; [right | left; apply K5; exact Hne].
+    + intro k. destruct (str_eq_dec k dkey) as [->|Hne]; [|left; apply K5; exact Hne].
+      destruct (cfg_cache cfg); [right | left; rewrite (proj1 K4); reflexivity].
       exists d, dt. split; [exact Hr|]. split; [rewrite Hk; exact Hkey|]. split; [exact K4|].
       intro Hn. unfold cmd_of. rewrite Hn. left. reflexivity.
   - pose proof E as Enull. apply (Build_single_proofs.execute_fail H) in E as (F1 & F2 & F3 & F4 & F5 & F6).
@@ -244,6 +245,8 @@ Proof.
   assert (Hhere : rdep s (d0 :: ds') d dt) by (eapply rdep_here; [left; reflexivity | exact Eres]).
   assert (Hdeep : forall e et, rdep s (td_deps dt) e et -> rdep s (d0 :: ds') e et).
   { intros e et He. eapply rdep_deep; [left; reflexivity | exact Eres | exact He]. }
+  destruct (rt_loaded (get_rt b d)).
+  { apply IH in E as [extra Hf]. exists extra. eapply dep_frame_mono; [exact Htl | exact Hf]. }
   destruct (rt_key (get_rt b d)) as [dkey|] eqn:Ekey; [|inversion E; subst; exists []; apply dep_frame_refl].
   destruct (rlookup dkey (c_results (b_cache b))) as [r|].
   2:{ exists (cmd_of dt). eapply execute_dep_frame; eauto. }
@@ -289,7 +292,7 @@ Inductive task_outcome2 (cfg : config) (s : sources) (i : nat) (t : tdef) (b b' 
 | T2_exec_ok : forall dh extra b1 b3, (* (dependencies re-run,) then executed successfully *)
     dep_hashes s b (td_deps t) = Some dh ->
     dep_frame s (rdep s (td_deps t)) extra (pt_b0 i (key_of s t dh) b) b1 ->
-    exec_ok s t (key_of s t dh) (pt_tainted t b) b1 b3 ->
+    exec_ok cfg s t (key_of s t dh) (pt_tainted t b) b1 b3 ->
     (forall j, rt_key (get_rt b3 j) = rt_key (get_rt b1 j)) ->
     (forall dg x, alookup dg (c_cas (b_cache b1)) = Some x -> alookup dg (c_cas (b_cache b3)) = Some x) ->
     b' = mark b3 i TExecuted -> task_outcome2 cfg s i t b b'
@@ -427,9 +430,9 @@ Proof.
 Qed.
 
 (* the target's own execution *)
-Lemma node_frame2_exec_ok s j t key tn b1 b3 :
+Lemma node_frame2_exec_ok cfg s j t key tn b1 b3 :
   node_at s j = Some (NTarget t) -> tn = label_in (td_label t) (c_taint (b_cache b1)) ->
-  exec_ok s t key tn b1 b3 -> (forall i, rt_key (get_rt b3 i) = rt_key (get_rt b1 i)) ->
+  exec_ok cfg s t key tn b1 b3 -> (forall i, rt_key (get_rt b3 i) = rt_key (get_rt b1 i)) ->
   node_frame2 s j b1 b3.
 Proof.
   intros Hn Htn [K1 K2 K3 K4 K5 K6 K7 K8 K9 K10 K11] Hk.
@@ -559,7 +562,7 @@ Inductive step_outcome (cfg : config) (s : sources) (i : nat) (t : tdef) (b b' :
     status_of b' i = TExecuted ->
     dep_hashes s b (td_deps t) = Some dh ->
     dep_frame s (rdep s (td_deps t)) extra (pt_b0 i (key_of s t dh) b) b1 ->
-    exec_ok s t (key_of s t dh) (label_in (td_label t) (c_taint (b_cache b))) b1 b3 ->
+    exec_ok cfg s t (key_of s t dh) (label_in (td_label t) (c_taint (b_cache b))) b1 b3 ->
     (forall j, rt_key (get_rt b3 j) = rt_key (get_rt b1 j)) ->
     (forall dg x, alookup dg (c_cas (b_cache b1)) = Some x -> alookup dg (c_cas (b_cache b3)) = Some x) ->
     b' = mark b3 i TExecuted -> step_outcome cfg s i t b b'.
@@ -582,7 +585,7 @@ Proof.
     + rewrite app_nil_r. reflexivity.
     + apply ext_frame_refl.
   - assert (Hlen : i < rt_len b3).
-    { rewrite (eo_len _ _ _ _ _ _ Hok), (df_len _ _ _ _ _ F), pt_b0_len. exact Hi. }
+    { rewrite (eo_len _ _ _ _ _ _ _ Hok), (df_len _ _ _ _ _ F), pt_b0_len. exact Hi. }
     eapply SO_executed; eauto. apply status_mark_same; exact Hlen.
   - assert (Hlen : i < rt_len b3) by (rewrite L, (df_len _ _ _ _ _ F), pt_b0_len; exact Hi).
     apply SO_failed; [apply status_mark_same; exact Hlen|].
@@ -787,7 +790,7 @@ Lemma executed_step i t :
   exists dh extra b1 b3,
     dep_hashes s (P i) (td_deps t) = Some dh /\
     dep_frame s (rdep s (td_deps t)) extra (pt_b0 i (key_of s t dh) (P i)) b1 /\
-    exec_ok s t (key_of s t dh) (label_in (td_label t) (c_taint (b_cache (P i)))) b1 b3 /\
+    exec_ok cfg s t (key_of s t dh) (label_in (td_label t) (c_taint (b_cache (P i)))) b1 b3 /\
     (forall j, rt_key (get_rt b3 j) = rt_key (get_rt b1 j)) /\
     (forall dg x, alookup dg (c_cas (b_cache b1)) = Some x -> alookup dg (c_cas (b_cache b3)) = Some x) /\
     P (S i) = mark b3 i TExecuted.
@@ -807,7 +810,7 @@ Proof.
   intros Hi Hn Hst.
   destruct (executed_step i t Hi Hn Hst) as (dh & extra & b1 & b3 & Hd & F & Hok & _ & _ & Hb').
   assert (Hafter : label_in (td_label t) (c_taint (b_cache (P (S i)))) = false).
-  { rewrite Hb'. autorewrite with bst. rewrite (eo_taints _ _ _ _ _ _ Hok), (df_taint _ _ _ _ _ F).
+  { rewrite Hb'. autorewrite with bst. rewrite (eo_taints _ _ _ _ _ _ _ Hok), (df_taint _ _ _ _ _ F).
     change (c_taint (b_cache (pt_b0 i (key_of s t dh) (P i)))) with (c_taint (b_cache (P i))).
     destruct (label_in (td_label t) (c_taint (b_cache (P i)))) eqn:Et; [apply label_in_remove | exact Et]. }
   rewrite build_is_prefix. cbn [br_cache]. fold n. fold (P n).
@@ -829,7 +832,8 @@ Theorem executed_post_any_mode i t :
        b_exec (P (S i)) = b_exec (P i) ++ extra ++ [td_label t] /\
        (forall l, ~ In l extra -> label_in l (w_ext w0) = label_in l (w_ext (b_world (P i)))) /\
        run_command s t w0 = Some (b_world (P (S i)))) /\
-  (exists dh res, dep_hashes s (P i) (td_deps t) = Some dh /\
+  (cfg_cache cfg = true ->
+   exists dh res, dep_hashes s (P i) (td_deps t) = Some dh /\
                   rlookup (key_of s t dh) (c_results (b_cache (P (S i)))) = Some res).
 Proof.
   intros Hi Hn Hst.
@@ -840,7 +844,7 @@ Proof.
     + rewrite K8, exec_start_cmd_of, (df_exec _ _ _ _ _ F). unfold cmd_of. rewrite Hc.
       rewrite <- app_assoc. reflexivity.
     + intros l Hl. exact (df_ext _ _ _ _ _ F l Hl).
-  - destruct K4 as [res Hr]. exists dh, res. split; [exact Hd | exact Hr].
+  - intro Hon. rewrite Hon in K4. destruct K4 as [res Hr]. exists dh, res. split; [exact Hd | exact Hr].
 Qed.
 
 (* the command of an executed target was started in this build *)
@@ -934,7 +938,7 @@ Proof.
     + destruct (Hfail _ Hf) as [E|E]; auto.
     + left. rewrite (hf_same _ _ _ _ _ _ Hh). reflexivity.
     + destruct (str_eq_dec k (key_of s t dh)) as [->|Hne]; [right; left; eauto|].
-      rewrite Hb'. autorewrite with bst. rewrite (eo_others _ _ _ _ _ _ Hok k Hne).
+      rewrite Hb'. autorewrite with bst. rewrite (eo_others _ _ _ _ _ _ _ Hok k Hne).
       destruct (df_res _ _ _ _ _ F k) as [E|(d & dt & Hr & Hkd & Hsd & _)]; [left; exact E | right; right].
       exists d, dt. split; [exact Hr|]. split; [rewrite rt_key_mark, Hk; exact Hkd | exact Hsd].
   - rewrite E. destruct (Hfail _ Hf) as [E'|E']; auto.
